@@ -1,5 +1,6 @@
 import Ecal.Lemmas.ExprFuel
 import Ecal.Lemmas.ExprTotal
+import Ecal.Lemmas.ExprSound
 import Ecal.Gen.C03
 /-!
 # C03 — expressions evaluate per the documented operator semantics and precedence
@@ -8,7 +9,7 @@ Model: `Ecal/Model/Expr.lean`. `T` below is the table regenerated from
 `/repo/parser/parser.go` (`Ecal/Gen/C03.lean`) on every run; every fact about it is
 re-checked by `decide`.
 
-Precedence: `pratt_print`, `pratt_print_redundant`, `layout_irrelevant_partial` and the
+Precedence: `pratt_print`, `pratt_print_redundant`, the converse `parse_sound`, `layout_irrelevant_partial` and the
 corollaries `left_assoc`, `tighter_first`, `prefix_sign_tightest`,
 `not_takes_comparison`. Semantics: `eval_eq_quirk_spec`, `eval_refines_spec_partial`, `wrong_kind_*`.
 -/
@@ -49,7 +50,8 @@ theorem table_denotations :
     T.led .lp = .none ∧ T.led .lb = .none ∧
     T.infixExtra = 0 ∧ T.infixSub = 0 ∧ T.innerBinding = 0 ∧ T.listBinding = 0 := by decide
 
-/-- every operator token is tied to its own node kind (and through it to its runtime) -/
+/-- every operator token is tied to its own node kind (the map node kind → runtime constructor,
+    `providerMap`, is not extracted: that step is covered by the value comparison only) -/
 theorem table_nodes :
     BinOp.all.map (fun o => T.node (.op o)) =
       ["NodeGEQ", "NodeLEQ", "NodeNEQ", "NodeEQ", "NodeGT", "NodeLT", "NodePLUS", "NodeMINUS", "NodeTIMES",
@@ -131,6 +133,16 @@ theorem layout_irrelevant_partial (e : Expr) (ks : List TK) (hp : Prints e .top 
     executable parser suffices; fuel is only a device for structural recursion. -/
 theorem parse_fuel_suffices (ts : List LTok) : Impl.parse T ts ≠ .error .fuel :=
   parse_never_out_of_fuel T ts
+
+/-- C03 (converse — the parser accepts nothing but the documented grammar): whenever the parser
+    with the real table returns a tree for a token list (on whatever lines), the tokens before
+    the EOF token are a writing of THAT tree per the documented precedence grammar — needed
+    parentheses present, any further ones allowed; the only liberty beyond `Prints` is that the
+    elements of a list literal need no commas (`PrintsW`). With `pratt_print_redundant` and
+    `prints_unambiguous`: the parser IS the grammar. -/
+theorem parse_sound (ts : List LTok) (e : Expr) (h : Impl.parse T ts = .ok e) :
+    ∃ ks rest, ts.map (·.tk) = ks ++ (.eof :: rest) ∧ PrintsW e .top .none ks :=
+  parse_sound_gen table_compat ts e h
 
 /-- C03 (the documented grammar is unambiguous): a token sequence is an admissible writing
     of at most one tree — a consequence of the parser reading every writing back. -/
@@ -226,6 +238,10 @@ example : Impl.parse T [⟨.atom n1, 1⟩, ⟨.op .plus tPlus, 2⟩, ⟨.atom n2
     expression ends after `1` (a second statement follows — outside the fragment) -/
 example : Impl.parse T [⟨.atom n1, 1⟩, ⟨.lp, 1⟩, ⟨.atom n2, 1⟩, ⟨.rp, 1⟩, ⟨.eof, 1⟩] = .error .noLed := by rfl
 example : Impl.parse T [⟨.atom n1, 1⟩, ⟨.lp, 2⟩, ⟨.atom n2, 2⟩, ⟨.rp, 2⟩, ⟨.eof, 2⟩] = .error .unsupported := by rfl
+
+/-- `[1 2]` (no comma) is accepted: the hypothesis of `parse_sound` is satisfiable outside `Prints` -/
+example : Impl.parse T [⟨.lb, 1⟩, ⟨.atom n1, 1⟩, ⟨.atom n2, 1⟩, ⟨.rb, 1⟩, ⟨.eof, 1⟩]
+    = .ok (.list (.cons (.atom n1) (.cons (.atom n2) .nil))) := by rfl
 
 /-- redundant brackets: `((1)) + (2 * 3)` is an admissible writing of `1 + 2 * 3` -/
 example : Prints (.bin .plus tPlus (.atom n1) (.bin .times tTimes (.atom n2) (.atom n3))) .top .none
